@@ -1,6 +1,8 @@
 import EdpVerif.Drv.Etf
 import EdpVerif.Generated.Control
 import EdpVerif.Spec.Control
+import EdpVerif.Impl.ControlCtor
+import EdpVerif.Spec.ControlCtor
 namespace Edp.Drv
 open Edp Edp.Control
 
@@ -181,6 +183,25 @@ def handleC08 : List String → Option String
       if Spec.intOf e == some (id.toNat! : Int) then pure "ok"
       else pure ("FAIL id " ++ id ++ " serialised-as " ++ e.text)
     | _ => pure "FAIL not-a-tuple"
+  -- a constructor of `impl ControlMessage` called with these arguments, then `to_term` and `into_term`
+  | "c08ctor" :: name :: args => some <| run do
+    let args ← args.mapM getTerm
+    match ctors.find? (fun c => c.name == name) with
+    | none => pure "no-such-constructor"
+    | some c =>
+      match construct c args with
+      | none => pure "none"
+      | some m => pure (m.text ++ " " ++ optText (toTerm c08tbl m) ++ " " ++ optText (intoTerm c08tbl m))
+  -- Spec oracle: the tuple the implementation produced is the protocol's for this operation and these arguments
+  | "c08ctorprop" :: name :: tup :: args => some <| run do
+    let tup ← getTerm tup
+    let args ← args.mapM getTerm
+    match ctors.find? (fun c => c.name == name) with
+    | none => pure "FAIL no-such-constructor"
+    | some c =>
+      match Spec.ctorTuple c.variant c.params args with
+      | none => pure "FAIL no-protocol-operation"
+      | some want => pure (if want == tup then "ok" else "FAIL protocol-expects " ++ want.text)
   | _ => none
 
 end Edp.Drv
